@@ -1,3 +1,416 @@
 package main
 
-func cmdCheck(args []string) int { return 2 }
+import (
+	"encoding/json"
+	"flag"
+	"fmt"
+	"os"
+	"path/filepath"
+	"sort"
+	"strconv"
+	"strings"
+	"time"
+
+	"gosx/explore"
+	"gosx/interp"
+	"gosx/load"
+	"gosx/smt"
+)
+
+type harnessCfg struct {
+	Fn          string         `json:"fn"`
+	Quick       map[string]int `json:"quick"`
+	Thorough    map[string]int `json:"thorough"`
+	Termination bool           `json:"termination"` // budget/deadlock ends are violation candidates (replayed under a watchdog)
+	Reach       []string       `json:"reach"`       // witnesses that must be reached (vacuity guard)
+	SkipQuick   bool           `json:"skip_quick"`
+	TimeoutMs   int            `json:"timeout_ms"`
+	MaxSteps    int64          `json:"max_steps"`
+	Race        bool           `json:"race"`
+}
+
+type propCfg struct {
+	Pkg        string         `json:"pkg"`
+	Level      string         `json:"level"`
+	Harnesses  []harnessCfg   `json:"harnesses"`
+	Validate   map[string]int `json:"validate"`
+	Assumptions []string      `json:"assumptions"`
+	Bounds     []string       `json:"bounds"`
+	Explanation string        `json:"explanation"`
+}
+
+type knownFinding struct {
+	Property string `json:"property"`
+	ID       string `json:"finding_id"`
+	Status   string `json:"status"` // open | fixed
+	Commit   string `json:"commit,omitempty"`
+	Text     string `json:"text"`
+}
+
+type replayFile struct {
+	Property  string            `json:"property"`
+	Pkg       string            `json:"pkg"`
+	Harness   string            `json:"harness"`
+	Params    map[string]int    `json:"params"`
+	Model     map[string]uint64 `json:"model"`
+	Assertion string            `json:"assertion"`
+	OpenKF    []string          `json:"open_kf"`
+	Native    *nativeOutcome    `json:"native_outcome,omitempty"`
+	Kind      string            `json:"kind"`
+}
+
+func readJSON(path string, v interface{}) error {
+	b, err := os.ReadFile(path)
+	if err != nil {
+		return err
+	}
+	return json.Unmarshal(b, v)
+}
+
+func cmdCheck(args []string) int {
+	fs := flag.NewFlagSet("check", flag.ExitOnError)
+	var c common
+	c.flags(fs)
+	prop := fs.String("prop", "", "property id")
+	tier := fs.String("tier", "quick", "quick | thorough")
+	replay := fs.String("replay", "", "replay one stored counter-example natively and exit")
+	only := fs.String("only", "", "run only this harness (development)")
+	fs.Parse(args)
+	if env := os.Getenv("VERIF_TIER"); env != "" && *tier == "" {
+		*tier = env
+	}
+	if *replay != "" {
+		return cmdReplay(&c, *replay)
+	}
+	t0 := time.Now()
+	seed, _ := strconv.Atoi(os.Getenv("VERIF_SEED"))
+
+	var props map[string]*propCfg
+	if err := readJSON(filepath.Join(c.verif, "props.json"), &props); err != nil {
+		fmt.Fprintln(os.Stderr, "gosx: props.json:", err)
+		return 2
+	}
+	pc := props[*prop]
+	if pc == nil {
+		fmt.Fprintf(os.Stderr, "gosx: property %s is not configured\n", *prop)
+		return 2
+	}
+	var kfs []knownFinding
+	if err := readJSON(filepath.Join(c.verif, "known-findings.json"), &kfs); err != nil && !os.IsNotExist(err) {
+		fmt.Fprintln(os.Stderr, "gosx: known-findings.json:", err)
+		return 2
+	}
+	openKF := map[string]knownFinding{}
+	var openList []string
+	for _, k := range kfs {
+		if k.Property == *prop && k.Status == "open" {
+			openKF[k.ID] = k
+			openList = append(openList, k.ID)
+		}
+	}
+	sort.Strings(openList)
+
+	env, err := load.NewEnv(c.repo, c.verif+"/harness", c.verif+"/engine")
+	if err != nil {
+		fmt.Fprintln(os.Stderr, "gosx:", err)
+		return 2
+	}
+	defer env.Close()
+	prog, err := env.Load(pc.Pkg)
+	if err != nil {
+		fmt.Fprintln(os.Stderr, "gosx:", err)
+		return 2
+	}
+	cfg := c.config(prog, load.Module+"/"+pc.Pkg)
+	for k := range openKF {
+		cfg.OpenKF[k] = true
+	}
+	pool, err := explore.NewPool(cfg, c.workers)
+	if err != nil {
+		fmt.Fprintln(os.Stderr, "gosx:", err)
+		return 2
+	}
+	defer pool.Close()
+
+	nValidate := pc.Validate[*tier]
+	if nValidate == 0 {
+		nValidate = 20
+	}
+
+	ev := newEvidence(*prop, *tier, seed, pc)
+	exit := 0
+	problem := func(format string, a ...interface{}) {
+		msg := fmt.Sprintf(format, a...)
+		fmt.Println("CHECK-PROBLEM:", msg)
+		ev.Problems = append(ev.Problems, msg)
+		if exit == 0 {
+			exit = 2
+		}
+	}
+	kfPrinted := map[string]bool{}
+	replayN := 0
+	replayDir := filepath.Join(c.verif, "replays", *prop)
+
+	for _, h := range pc.Harnesses {
+		if *only != "" && h.Fn != *only {
+			continue
+		}
+		if *tier == "quick" && h.SkipQuick {
+			continue
+		}
+		params := h.Quick
+		if *tier == "thorough" && h.Thorough != nil {
+			params = h.Thorough
+		}
+		if params == nil {
+			params = map[string]int{}
+		}
+		cfg.Params = params
+		cfg.TimeoutMs = c.timeoutMs
+		if h.TimeoutMs > 0 {
+			cfg.TimeoutMs = h.TimeoutMs
+		}
+		cfg.MaxSteps = c.maxSteps
+		if h.MaxSteps > 0 {
+			cfg.MaxSteps = h.MaxSteps
+		}
+		entry := prog.Pkgs[load.Module+"/"+pc.Pkg].Func(h.Fn)
+		if entry == nil {
+			problem("harness %s not found in %s", h.Fn, pc.Pkg)
+			continue
+		}
+		s := pool.Explore(entry, explore.Options{Validate: nValidate, Verbose: c.verbose})
+		ev.addHarness(h.Fn, params, s)
+		if c.verbose {
+			printSummary(s)
+		}
+
+		// --- machinery conditions
+		if s.Truncated {
+			problem("%s: exploration truncated", h.Fn)
+		}
+		for _, k := range []string{"unsupported", "engine-error", "infeasible"} {
+			if s.Ends[k] > 0 {
+				problem("%s: %d paths ended as %s, e.g. %s", h.Fn, s.Ends[k], k, first(s.EndSamples[k]))
+			}
+		}
+		if s.Unknowns > 0 {
+			problem("%s: %d solver answers were unknown/timeout (undecided obligations or branches)", h.Fn, s.Unknowns)
+		}
+		if s.SolverErrs > 0 {
+			problem("%s: %d solver errors", h.Fn, s.SolverErrs)
+		}
+		nObl := 0
+		for _, o := range s.Obligations {
+			nObl += o.Total
+			if o.Undecided > 0 {
+				problem("%s: undecided obligations", h.Fn)
+			}
+		}
+		if s.Ends["done"] == 0 || nObl == 0 {
+			problem("%s: vacuous (done paths=%d, obligations=%d)", h.Fn, s.Ends["done"], nObl)
+		}
+		for _, r := range h.Reach {
+			found := false
+			for got := range s.Reached {
+				if got == r || strings.HasPrefix(got, r) {
+					found = true
+				}
+			}
+			if !found {
+				problem("%s: reachability witness %q was not reached (vacuous)", h.Fn, r)
+			}
+		}
+
+		// --- candidates: assertion violations and abnormal path ends
+		type cand struct {
+			id    string
+			kind  string
+			model smt.Model
+		}
+		var cands []cand
+		for _, v := range s.Violations {
+			cands = append(cands, cand{v.ID, "assert", v.Model})
+		}
+		for _, k := range []string{"panic", "budget", "deadlock"} {
+			for j, m := range s.EndModels[k] {
+				if k != "panic" && !h.Termination {
+					continue
+				}
+				if m == nil {
+					problem("%s: path ended as %s without a model: %s", h.Fn, k, s.EndSamples[k][j])
+					continue
+				}
+				cands = append(cands, cand{"no-" + k + ": " + clip(s.EndSamples[k][j], 160), k, m})
+			}
+			if k != "panic" && !h.Termination && s.Ends[k] > 0 {
+				problem("%s: %d paths exceeded a bound (%s), e.g. %s", h.Fn, s.Ends[k], k, first(s.EndSamples[k]))
+			}
+		}
+		if len(cands) > 0 {
+			var nc []nativeCase
+			for _, cd := range cands {
+				nc = append(nc, nativeCase{Harness: h.Fn, Params: params, Model: modelMap(cd.model), OpenKF: openList})
+			}
+			outs, err := runNative(env, pc.Pkg, nc, 20000, h.Race)
+			if err != nil {
+				problem("%s: native replay failed: %v", h.Fn, err)
+			}
+			for j, cd := range cands {
+				if j >= len(outs) {
+					break
+				}
+				o := outs[j]
+				reproduced := false
+				switch cd.kind {
+				case "assert":
+					for _, f := range o.Failed {
+						if f == cd.id {
+							reproduced = true
+						}
+					}
+					if o.Panic != "" || o.Timeout {
+						reproduced = true
+					}
+				case "panic":
+					reproduced = o.Panic != ""
+				default:
+					reproduced = o.Timeout || strings.Contains(o.Panic, "stack overflow") || strings.Contains(o.Panic, "process died")
+				}
+				knownNative := len(o.Known) > 0 && len(o.Failed) == 0 && o.Panic == "" && !o.Timeout
+				ev.ReplaysRun++
+				if !reproduced {
+					if knownNative {
+						// the native run classifies it under an open finding
+						for _, kk := range o.Known {
+							cls := kk[strings.Index(kk, "|")+1:]
+							if !kfPrinted[cls] {
+								kfPrinted[cls] = true
+								fmt.Printf("KNOWN-FINDING: property=%s %s %s\n", *prop, cls, openKF[cls].Text)
+							}
+						}
+						continue
+					}
+					ev.Unconfirmed++
+					problem("%s: counter-example for %q did not reproduce natively (model %v, native outcome %+v)", h.Fn, cd.id, cd.model, o)
+					continue
+				}
+				replayN++
+				os.MkdirAll(replayDir, 0755)
+				path := filepath.Join(replayDir, fmt.Sprintf("%s-%d.json", h.Fn, replayN))
+				rf := replayFile{Property: *prop, Pkg: pc.Pkg, Harness: h.Fn, Params: params, Model: modelMap(cd.model), Assertion: cd.id, OpenKF: openList, Native: &o, Kind: cd.kind}
+				b, _ := json.MarshalIndent(rf, "", " ")
+				os.WriteFile(path, b, 0644)
+				fmt.Printf("VIOLATION property=%s replay=%s\n", *prop, path)
+				fmt.Printf("  harness=%s assertion=%q native=%+v\n", h.Fn, cd.id, o)
+				ev.Violations++
+				ev.ViolationSamples = append(ev.ViolationSamples, map[string]interface{}{"harness": h.Fn, "assertion": cd.id, "model": modelMap(cd.model), "replay": path})
+				exit = 1
+			}
+		}
+
+		// --- known findings seen by the solver: confirm natively, then report
+		var kfNames []string
+		for k := range s.KFSeen {
+			kfNames = append(kfNames, k)
+		}
+		sort.Strings(kfNames)
+		if len(kfNames) > 0 {
+			var nc []nativeCase
+			for _, k := range kfNames {
+				nc = append(nc, nativeCase{Harness: h.Fn, Params: params, Model: modelMap(s.KFSeen[k]), OpenKF: openList})
+			}
+			outs, err := runNative(env, pc.Pkg, nc, 20000, false)
+			if err != nil {
+				problem("%s: native replay of known findings failed: %v", h.Fn, err)
+			}
+			for j, k := range kfNames {
+				if j >= len(outs) {
+					break
+				}
+				o := outs[j]
+				ok := false
+				for _, kk := range o.Known {
+					if strings.HasSuffix(kk, "|"+k) {
+						ok = true
+					}
+				}
+				if !ok {
+					problem("%s: known finding %s: solver model did not reproduce natively (model %v, native %+v)", h.Fn, k, s.KFSeen[k], o)
+					continue
+				}
+				ev.KnownSeen[k]++
+				if !kfPrinted[k] {
+					kfPrinted[k] = true
+					fmt.Printf("KNOWN-FINDING: property=%s %s %s\n", *prop, k, openKF[k].Text)
+				}
+			}
+		}
+
+		// --- differential validation of passing paths
+		if len(s.ValCases) > 0 {
+			vr, err := nativeValidate(env, pc.Pkg, h.Fn, params, openList, s.ValCases)
+			if err != nil {
+				problem("%s: native validation failed: %v", h.Fn, err)
+			} else {
+				ev.Validated += vr.Agreed
+				for _, m := range vr.Mismatches {
+					problem("%s: engine/native disagreement: %s", h.Fn, m)
+				}
+			}
+		}
+	}
+	ev.WallS = time.Since(t0).Seconds()
+	ev.Exit = exit
+	if err := ev.write(filepath.Join(c.verif, "evidence", *prop+".json")); err != nil {
+		fmt.Fprintln(os.Stderr, "gosx: evidence:", err)
+		return 2
+	}
+	fmt.Printf("property=%s tier=%s exit=%d paths=%d obligations=%d discharged=%d violations=%d known=%d validated=%d wall=%.1fs\n",
+		*prop, *tier, exit, ev.Paths, ev.Obligations, ev.Discharged, ev.Violations, len(kfPrinted), ev.Validated, ev.WallS)
+	return exit
+}
+
+func first(xs []string) string {
+	if len(xs) == 0 {
+		return ""
+	}
+	return clip(xs[0], 400)
+}
+
+func clip(s string, n int) string {
+	if len(s) > n {
+		return s[:n] + "…"
+	}
+	return s
+}
+
+// cmdReplay re-runs a stored counter-example natively; exit 1 when it still fails.
+func cmdReplay(c *common, path string) int {
+	var rf replayFile
+	if err := readJSON(path, &rf); err != nil {
+		fmt.Fprintln(os.Stderr, "gosx:", err)
+		return 2
+	}
+	env, err := load.NewEnv(c.repo, c.verif+"/harness", c.verif+"/engine")
+	if err != nil {
+		fmt.Fprintln(os.Stderr, "gosx:", err)
+		return 2
+	}
+	defer env.Close()
+	outs, err := runNative(env, rf.Pkg, []nativeCase{{Harness: rf.Harness, Params: rf.Params, Model: rf.Model, OpenKF: rf.OpenKF}}, 20000, false)
+	if err != nil || len(outs) == 0 {
+		fmt.Fprintln(os.Stderr, "gosx: replay:", err)
+		return 2
+	}
+	o := outs[0]
+	b, _ := json.MarshalIndent(o, "", " ")
+	fmt.Printf("replay of %s (%s, assertion %q):\n%s\n", path, rf.Harness, rf.Assertion, b)
+	if len(o.Failed) > 0 || o.Panic != "" || o.Timeout {
+		fmt.Printf("VIOLATION property=%s replay=%s\n", rf.Property, path)
+		return 1
+	}
+	return 0
+}
+
+var _ = interp.OrderInsertion
